@@ -110,6 +110,25 @@ func checkC15(c *Ctx) {
 				if !ok || len(b.Succs) != 2 {
 					continue
 				}
+				// `batch, ok := c.tryExtractBatch(); ok`: the success flag of the extraction
+				if ex, isEx := iff.Cond.(*ssa.Extract); isEx {
+					if call, isCall := ex.Tuple.(*ssa.Call); isCall && calleeIs(&call.Call, try) && ex.Index == 1 {
+						held := false
+						for _, m := range lockFlow(hf, lockState{})[iff] {
+							if m >= lockR {
+								held = true
+							}
+						}
+						if held {
+							n++
+							w := cfgSearch(hfl, nil, b.Succs[0], isUnlockOrRet, isSignal, notFullEdge)
+							c.Check(w == nil, "C15.2", "Get: re-signal after extraction when another full batch remains", p.FuncPos(get),
+								"every path from a successful extraction to the end of the critical section calls signalReady or takes the !hasFullBatch() edge",
+								"after a successful extraction the lock can be released at "+posOf(p, w)+" with a full batch left and no signal")
+						}
+					}
+					continue
+				}
 				bo, ok := iff.Cond.(*ssa.BinOp)
 				if !ok || (bo.Op != token.NEQ && bo.Op != token.EQL) {
 					continue
@@ -178,7 +197,8 @@ func checkC15(c *Ctx) {
 				for f := range e.Facts {
 					facts[f] = true
 				}
-				if !(strings.HasPrefix(bk, kCCTry) && notNilOf(facts, is(bk))) {
+				okFlag := strings.HasSuffix(bk, "#0") && trueOf(facts, is(strings.TrimSuffix(bk, "#0")+"#1"))
+				if !(strings.HasPrefix(bk, kCCTry) && (notNilOf(facts, is(bk)) || okFlag)) {
 					bad = append(bad, p.Pos(e.Ret.Pos())+" returns "+bk)
 				}
 			}
@@ -200,8 +220,14 @@ func checkC15(c *Ctx) {
 			if isSuccess {
 				continue
 			}
+			okErr := isNilConst(retValue(r, 0))
 			ek := fl.K.Key(retValue(r, 1))
-			if !strings.HasPrefix(ek, "invoke (context.Context).Err(p1)") || !isNilConst(retValue(r, 0)) {
+			for _, lf := range leaves(fl, retValue(r, 1), r) {
+				if !strings.HasPrefix(lf.KeyIn(fl), "invoke (context.Context).Err(p1)") {
+					okErr = false
+				}
+			}
+			if !okErr {
 				bad2 = append(bad2, p.Pos(r.Pos())+" returns "+ek)
 			}
 		}
@@ -256,6 +282,69 @@ func checkC15(c *Ctx) {
 				}
 			}
 		})
+		if n == 0 {
+			// the wait lives in a private helper of the package (`if err := c.awaitReady(ctx); err != nil { return nil, err }`):
+			// the helper returns nil exactly on the ready case; the success edge of its call in Get is the consumed token
+			for _, hf := range helperClosure(p, get, 1) {
+				if hf == get {
+					continue
+				}
+				hfl := NewFlow(p, hf)
+				readyOnlyNil := false
+				eachInstr(hf, func(in ssa.Instruction) {
+					sel, ok := in.(*ssa.Select)
+					if !ok {
+						return
+					}
+					for _, st := range sel.States {
+						if st.Dir == types.RecvOnly && hfl.K.Key(st.Chan) == "p0->"+kCC+"ready" {
+							readyOnlyNil = true
+						}
+					}
+				})
+				if !readyOnlyNil || hf.Signature.Results().Len() != 1 || hf.Signature.Results().At(0).Type().String() != "error" {
+					continue
+				}
+				// every nil return is on the ready case; every other return is a (non-nil) ctx.Err()
+				okHelper := true
+				for _, r := range returnsOf(hf) {
+					v := retValue(r, 0)
+					if isNilConst(v) {
+						continue
+					}
+					if !strings.HasPrefix(hfl.K.Key(v), "invoke (context.Context).Err(") {
+						okHelper = false
+					}
+				}
+				for _, s := range callsIn(get, false, func(cc *ssa.CallCommon) bool { return calleeIs(cc, hf) }) {
+					ck := fl.K.Key(s.Value())
+					for _, b := range get.Blocks {
+						for _, succ := range b.Succs {
+							for _, f := range fl.edgeFacts(b, succ) {
+								if f.Op == "==" && oneIsNil(f) && nonNil(f) == ck {
+									n++
+									isExam := func(x ssa.Instruction) bool {
+										call, ok := x.(ssa.CallInstruction)
+										return ok && (calleeIs(call.Common(), full) || calleeIs(call.Common(), try))
+									}
+									isEnd := func(x ssa.Instruction) bool {
+										if _, ok := x.(*ssa.Return); ok {
+											return true
+										}
+										call, ok := x.(ssa.CallInstruction)
+										return ok && calleeIs(call.Common(), hf)
+									}
+									w := cfgSearch(fl, nil, succ, isEnd, isExam, nil)
+									c.Check(w == nil && okHelper, "C15.2", "Get: a consumed ready signal is followed by an examination of the cache", p.Pos(s.Pos()),
+										"every path from the successful wait to a return or to the next wait calls hasFullBatch()/tryExtractBatch()",
+										"after taking the ready signal Get can reach "+posOf(p, w)+" without looking at the cache: the signal for a waiting full batch is lost and the next Get blocks although a batch is present")
+								}
+							}
+						}
+					}
+				}
+			}
+		}
 		if n == 0 {
 			c.Unresolved("C15.2", "Get: receive on c.ready", "select case not found")
 		}
@@ -344,7 +433,7 @@ func checkC15(c *Ctx) {
 		var bad []string
 		for _, r := range returnsOf(try) {
 			v := retValue(r, 0)
-			if isNilConst(v) {
+			if isNilConst(v) && (len(r.Results) < 2 || isBoolConst(retValue(r, 1), false)) {
 				continue
 			}
 			if !c15BatchFull(fl.At(r)) {
